@@ -364,8 +364,20 @@ def normalise(fn, world=None, modname=None, cls=None, primitives=(),
         info["inlined"] = inl.inlined
     parent = getattr(fn, "_parent", None)
     if detable:
+        from . import unroll as _un
         from .unroll import detable as _detable
-        fn2, dinfo = _detable(fn)
+        saved_tr = _un.TABLE_RESOLVER[0]
+        if world is not None and modname is not None:
+            rt, _nn = _un.class_table_resolver(world, cls if hasattr(
+                cls, "lookup") else None, modname)
+            _un.TABLE_RESOLVER[0] = rt
+        try:
+            fn2, dinfo = _detable(fn)
+            if world is not None and modname is not None:
+                dinfo["modconsts"] = _un.fold_module_constants(
+                    fn2, world, modname)
+        finally:
+            _un.TABLE_RESOLVER[0] = saved_tr
         if any(dinfo.values()):
             fn = fn2
             info["detabled"] = dinfo
